@@ -14,6 +14,8 @@ import (
 	"strings"
 	"time"
 
+	"verifharness/drv"
+
 	"github.com/yandex/pandora/core"
 	"github.com/yandex/pandora/core/schedule"
 )
@@ -149,7 +151,7 @@ func c01Build(m map[string]string) core.Schedule {
 }
 
 func c01Run(input string) string {
-	m := kv(input)
+	m := drv.KV(input)
 	s := c01Build(m)
 	t0 := time.Unix(1_700_000_000, 0)
 	s.Start(t0)
@@ -224,14 +226,14 @@ func c01Run(input string) string {
 	return fmt.Sprintf("n=%d fin=%d finstable=%d mono=%d tmin=%d tmax=%d toks=%s", n, fin, b(stable), b(mono), tmin, tmax, sb.String())
 }
 
-func init() {
-	register(&Prop{
+func main() {
+	drv.Main(&drv.Prop{
 		ID:  "C01",
 		Gen: c01Gen,
 		Run: c01Run,
 		Class: func(in, obs string) string {
-			m := kv(in)
-			o := kv(obs)
+			m := drv.KV(in)
+			o := drv.KV(obs)
 			if o["n"] == "0" || o["n"] == "" {
 				return ""
 			}
